@@ -54,14 +54,17 @@ impl FileOperations for WriteAheadLog {
         // A log that was truncated (or just created) and not yet forced again has no header on disk:
         // the process died in between. It is an empty log, not a damaged one.
         if file.metadata()?.len() < default_block_size as u64 {
-            return Ok(Self {
+            let mut wal = Self {
                 header: BlockZero::alloc(0, default_block_size),
                 current_block: None,
                 flush_queue: VecDeque::new(),
                 file,
                 block_size: default_block_size,
                 flushed_blocks: 0,
-            });
+            };
+            // Give the file its header back, so that readers find a well-formed empty log.
+            wal.perform_flush()?;
+            return Ok(wal);
         }
 
         // Read block 0 (global header)
